@@ -673,6 +673,17 @@ func c05Reader(c *fw.Ctx, enumerate [][]byte) fw.Outcome {
 		if exp, have := stlExpectCues(model, ignore), stlProjectCues(got); !stlSameWithin1ns(exp, have) {
 			return fw.Bad(key, fmt.Sprintf("%x", doc), "STL reader (fps=%d dsc=%s ignoreTCP=%v tcp=%v): %s", model.G.FPS, model.G.DSC, ignore, model.G.TCP, firstDiff(exp, have))
 		}
+		if c.Idx%4 == 3 {
+			if _, plain := src.(*bytes.Reader); plain {
+				var opts *astisub.STLOptions
+				if ignore {
+					opts = &astisub.STLOptions{IgnoreTimecodeStartOfProgramme: true}
+				}
+				if msg := altEntryPoints(c, "stl", doc, got, opts); msg != "" {
+					return fw.Bad(key, fmt.Sprintf("%x", doc), "%s", msg)
+				}
+			}
+		}
 		// the vertical position is also handed on as a line percentage for the other formats: whatever the mapping,
 		// a row inside the displayable rows is a percentage between 0 and 100, and a lower row never gets a smaller one
 		type pos struct{ vp, line int }
@@ -1011,6 +1022,11 @@ func c05Writer(c *fw.Ctx) fw.Outcome {
 	}
 	doc := b1.Bytes()
 	key := fw.HashBytes(doc)
+	if c.Idx%4 == 3 {
+		if msg := altWrite(c, "stl", sub, doc); msg != "" {
+			return fw.Bad(key, fmt.Sprintf("%x", doc), "%s", msg)
+		}
+	}
 	if len(doc) != 1024+128*len(model.Cues) {
 		return fw.Bad(key, fmt.Sprintf("%x", doc), "the file has %d bytes for %d cues, expected one 1024-byte GSI block and one 128-byte TTI block per cue", len(doc), len(model.Cues))
 	}
